@@ -135,7 +135,10 @@ Obs(st, U) ==
     sortedvalues |-> IF Comparable(ps) THEN ItemsT(SortedValues(ps)) ELSE << <<-1, -1>> >>,
     (* equality: with an OMD of the same pairs, the same pairs reordered, a mapping with the   *)
     (* same visible values, one differing value, a missing / an extra key, a non-mapping       *)
+    (* ... and with OMDs that differ by one pair: one more pair of an existing key appended,   *)
+    (* the last pair dropped, the first pair's value changed                                   *)
     eq |-> [same_omd |-> TRUE, reordered_omd |-> (Len(ps) < 2 \/ Rev(ps) = ps),
+            plus_one_omd |-> FALSE, minus_one_omd |-> (ps = <<>>), diffval_omd |-> (ps = <<>>),
             same_dict |-> TRUE, diffval_dict |-> (ps = <<>>), missing_key_dict |-> (ps = <<>>),
             extra_key_dict |-> FALSE, non_mapping |-> FALSE],
     wf |-> TRUE ]
